@@ -39,5 +39,9 @@ claim("C20", EFF + "; queries: every registry access and every Subscriber callba
       "Decides for all interleavings that the registry and the subscriber callbacks are only touched under the one registry mutex, that the mutex is always released and never re-acquired, and that the clean-up phase re-validates identity inside its own critical section. Linearizability of outcomes is not decided.",
       TB)
 
-for p in ["C03","C05","C07","C13","C14","C15","C16","C17","C18"]:
+claim("C14", EFF + "; queries on the load transaction: Root fields written vs. restored under err != nil, writes into possibly pre-existing schema objects vs. reference-replacement / idempotent exemptions, freshness of the duplicated tables",
+      "Decides for every failure point at once (any error return of any function inside ParseReader / AddTypes) that everything the transaction writes into the Root itself is saved and restored under err != nil alone, that the tables it works on are fresh duplicates, and enumerates every write into an object that may pre-date the call. The Root.schema leak found this way was repaired (6576018); in-place merging of extend blocks (six Extend implementations) is a genuine defect that needs copy-on-extend and is listed as known finding per implementation.",
+      TB)
+
+for p in ["C03","C05","C07","C13","C15","C16","C17","C18"]:
     na(p, "rules designed (DESIGN.md section 4) but not yet implemented in the checker at this commit; will be claimed once its rule set runs clean")
